@@ -315,7 +315,32 @@ pub fn boundary_moduli() -> Vec<u64> {
     for bits in [59usize, 60, 61] {
         v.extend(primes_1_mod(1 << 14, bits, 2));
     }
+    // moduli for which 2^64 or 2^128 is congruent to +-1: the fractional part of 2^128 / q is then as close to 0 or 1 as it gets,
+    // the worst case of a Barrett quotient estimate (prime factors of 2^32+1, 2^64-1, 2^64+1, 2^128+1 below 2^61; seeded round 4, C08-H)
+    v.extend([3u64, 5, 17, 257, 641, 65537, 274177, 6700417, 67280421310721, 59649589127497217]);
     v.sort();
+    v.dedup();
+    v
+}
+
+/// 128-bit inputs at the top of the range of a reduction: the last multiples of q below 2^128, 2^127, 2^97, 2^96, 2^65, 2^64
+/// and their neighbours (d = 0, 1, 2, q/2, q-2, q-1 above the multiple, and the same below the next one)
+fn top_multiples(q: u64) -> Vec<u128> {
+    let q = q as u128;
+    let mut v: Vec<u128> = vec![];
+    for k in [128u32, 127, 97, 96, 65, 64] {
+        let lim: u128 = if k == 128 { u128::MAX } else { (1u128 << k) - 1 };
+        let top = lim / q * q;
+        for base in [top, top.saturating_sub(q)] {
+            for d in [0u128, 1, 2, q / 2, q.saturating_sub(2), q - 1] {
+                if let Some(x) = base.checked_add(d) {
+                    v.push(x);
+                }
+            }
+        }
+        v.push(lim);
+    }
+    v.sort_unstable();
     v.dedup();
     v
 }
@@ -1604,6 +1629,19 @@ pub fn sections(cfg: &RunCfg) -> Vec<Box<dyn AnySection>> {
         cases.into_iter(),
         |c: &WCase| {
             let ops = boundary_ops(c.q);
+            if c.func == "barrett128" {
+                // (low word, high word) pairs of the top multiples are among the pairs of the extended sets
+                let tops = top_multiples(c.q);
+                let mut lo = ops.clone();
+                let mut hi = ops.clone();
+                lo.extend(tops.iter().map(|&x| x as u64));
+                hi.extend(tops.iter().map(|&x| (x >> 64) as u64));
+                lo.sort_unstable();
+                lo.dedup();
+                hi.sort_unstable();
+                hi.dedup();
+                return run_word(c, &lo, &hi, &ops[..1]);
+            }
             run_word(c, &ops, &ops, &ops)
         },
     ));
